@@ -299,6 +299,7 @@ package memberlist
 //@ ghost $bodyRead bool
 //@ ghost $rsLabel string
 //@ ghost $crcGot int
+//@ ghost $crcChecked bool
 //@ ghost $crcWant int
 //@ func (*Memberlist).ingestPacket(m, buf, from, timestamp)
 //@   safety [C12,C13]
@@ -313,9 +314,11 @@ package memberlist
 //@   at call decryptPayload: assert all-installed-keys [C14,C17]: keys == $installed
 //@   at call decryptPayload: set $decErr := res1
 //@   at call decryptPayload: set $plain := res0
+//@   at call (*Config).EncryptionEnabled: set $crcChecked := false
+//@   at call hash/crc32.ChecksumIEEE: set $crcChecked := true
 //@   at call hash/crc32.ChecksumIEEE: set $crcGot := res
 //@   at call (encoding/binary.bigEndian).Uint32: set $crcWant := res
-//@   at call (*Memberlist).handleCommand #1: assert crc-verified [C12]: $crcGot == $crcWant && len(buf) >= 0
+//@   at call (*Memberlist).handleCommand: assert crc-verified [C12]: $crcChecked ==> $crcGot == $crcWant
 //@   at call (*Memberlist).handleCommand: assert authenticated-only [C14]: $encOn && m.config.GossipVerifyIncoming ==> $decErr == 0 && (sliceEq($buf, $plain) || sliceEq($buf, $plain[5:]))
 
 //@ func (*Memberlist).handleCommand(m, buf, from, timestamp)
@@ -909,13 +912,16 @@ package memberlist
 
 //@ ghost $peekErr int
 //@ ghost $peeked []byte
+//@ ghost $hdrDone bool
 //@ func RemoveLabelHeaderFromStream(conn)
 //@   safety [C13,C16]
 //@   modular
 //@   bytes
 //@   requires nn: conn != nil
-//@   at call (*bufio.Reader).Peek: set $peekErr := res1
-//@   at call (*bufio.Reader).Peek: set $peeked := res0
+//@   at call bufio.NewReader: set $hdrDone := false
+//@   at call newPeekedConnFromBufferedReader: setbefore $hdrDone := true      // what is peeked from here on is the payload, not the header
+//@   at call (*bufio.Reader).Peek: set $peekErr := ite($hdrDone, $peekErr, res1)
+//@   at call (*bufio.Reader).Peek: set $peeked := ite($hdrDone, $peeked, res0)
 //@   ensures nn: result2 == nil ==> result0 != nil
 //@   ensures fragmentation [C16]: result2 != nil ==> $peekErr != 0 || (len($peeked) >= 2 && $peeked[1] < 1)
 //@   ensures label [C16]: result2 == nil && result1 != "" ==> len($peeked) == 2 + len(result1) && $peeked[0] == 244 && $peeked[1] == len(result1) && (forall i int :: 0 <= i && i < len(result1) ==> result1[i] == $peeked[2+i])
